@@ -532,6 +532,35 @@ func c13gRun(c c13gCase) (obs c13gObs, valid bool) {
 	return obs, true
 }
 
+// ---- which repairs does the tree under check carry? ---------------------------------------------------
+
+// c13gFix mirrors Gorm.genVisitFix (regenerated facts Gen.visitFilter / visitRoot / visitDistinct, asked from the Lean
+// driver): F27 element-wise guard in saveAssociations, F28 the statement's own value registered when the visit map
+// is created, F29 distinctPointers before the nested Create.  Used (a) to classify surplus hook firings by the
+// pattern that explains them ON THIS TREE (with F28 repaired the operation's own value counts as registered, so a
+// record list holding it next to a new record is the F27 pattern), (b) to widen the generator once a pattern is
+// ordinary input space.  The VERDICT never depends on it: a surplus firing is accepted only for an id that is listed.
+var c13gFix struct{ Filter, Root, Distinct bool }
+
+func c13gLoadFix(r *Result) {
+	c13gFix.Filter, c13gFix.Root, c13gFix.Distinct = false, false, false
+	outs, err := AskLean([][]interface{}{{"hooks.visitfix"}})
+	if err != nil || len(outs) != 1 {
+		if r != nil {
+			r.Note("graphs: repair flags not available from the Lean driver (%v): assuming the unrepaired code", err)
+		}
+		return
+	}
+	var m struct {
+		Filter   bool `json:"filter"`
+		Root     bool `json:"root"`
+		Distinct bool `json:"distinct"`
+	}
+	if json.Unmarshal(outs[0], &m) == nil {
+		c13gFix.Filter, c13gFix.Root, c13gFix.Distinct = m.Filter, m.Root, m.Distinct
+	}
+}
+
 // ---- the property, judged per in-memory record ---------------------------------------------------
 
 var c13gCreateSeq = []string{"BeforeSave", "BeforeCreate", "AfterCreate", "AfterSave"}
@@ -602,11 +631,13 @@ func c13gExpectedSeq(c c13gCase, n int) []string {
 	return c13gCreateSeq
 }
 
-// c13gExtraKnown classifies the surplus hook firings of node p by the three listed defects of the unchanged tree.
+// c13gExtraKnown classifies the surplus hook firings of node p by the three listed defects.
 // batches: per statement identity the nodes whose BeforeSave fired under it, in order, with multiplicity.
-//   F27 mixed batch: p is re-saved by a later nested Create whose record list also holds a record saved for the
-//       first time by that very Create (loadOrStoreVisitMap answers "all saved?" for the whole slice);
-//   F28 root re-saved: p belongs to the operation's own value, which is never registered in the visit map;
+// "registered" = in the visit map when the statement's record list was guarded: saved by an earlier statement, or --
+// tree with the F28 repair -- a record of the operation's own value.
+//   F27 mixed batch: p, registered, is re-saved by a nested Create whose record list also holds an unregistered
+//       record (loadOrStoreVisitMap answers "all saved?" for the whole slice);
+//   F28 root re-saved: p belongs to the operation's own value and the tree never registers it;
 //   F29 new record twice: p has no primary key yet and occurs twice in ONE collected record list.
 // Returns the finding ids that explain ALL surplus firings of p, or ok=false.
 func c13gExtraKnown(c c13gCase, evs []c13gEv, p int) (ids []string, ok bool) {
@@ -628,6 +659,17 @@ func c13gExtraKnown(c c13gCase, evs []c13gEv, p int) (ids []string, ok bool) {
 			}
 		}
 	}
+	rootStmt := -1
+	if len(order) > 0 {
+		rootStmt = order[0]
+	}
+	// was q registered when the record list of statement s was guarded?
+	registered := func(q, s int) bool {
+		if c13gIsRoot(c, q) {
+			return c13gFix.Root || (first[q] != s && first[q] != rootStmt) // a root's first save is the operation itself
+		}
+		return first[q] != s
+	}
 	idset := map[string]bool{}
 	for _, s := range order {
 		mult := 0
@@ -636,37 +678,37 @@ func c13gExtraKnown(c c13gCase, evs []c13gEv, p int) (ids []string, ok bool) {
 				mult++
 			}
 		}
-		if mult == 0 {
+		if mult == 0 || (s == rootStmt && c13gIsRoot(c, p) && mult == 1) {
 			continue
 		}
 		if mult >= 2 {
-			if !(first[p] == s && c.Nodes[p].Key == 0) {
+			if c.Nodes[p].Key != 0 {
 				return nil, false // a record WITH a primary key must have been filtered by identityMap
 			}
 			idset["F29-C13-new-record-twice-in-batch"] = true
 		}
-		if first[p] != s { // a later re-save
-			switch {
-			case c13gIsRoot(c, p):
-				idset["F28-C13-root-resaved-by-backpointer"] = true
-			default:
-				// the record list holds a record that was not registered before this Create: one saved here for the
-				// first time, or one of the operation's own value (never registered, F28)
-				mixed := false
-				for _, q := range members[s] {
-					if q != p && first[q] == s {
-						mixed = true
-					}
-					if q != p && c13gIsRoot(c, q) {
-						mixed = true
+		if first[p] == s && !c13gIsRoot(c, p) {
+			continue // its one legitimate save (multiplicity handled above)
+		}
+		// a re-save of p by statement s
+		switch {
+		case c13gIsRoot(c, p) && !c13gFix.Root:
+			idset["F28-C13-root-resaved-by-backpointer"] = true
+		default:
+			// p was registered: the record list must hold an unregistered record too
+			mixed := false
+			for _, q := range members[s] {
+				if q != p && !registered(q, s) {
+					mixed = true
+					if c13gIsRoot(c, q) {
 						idset["F28-C13-root-resaved-by-backpointer"] = true
 					}
 				}
-				if !mixed {
-					return nil, false
-				}
-				idset["F27-C13-mixed-association-batch"] = true
 			}
+			if !mixed {
+				return nil, false
+			}
+			idset["F27-C13-mixed-association-batch"] = true
 		}
 	}
 	for id := range idset {
@@ -723,8 +765,14 @@ func c13gOracle(c c13gCase, obs c13gObs) (v c13gVerdict) {
 				resaved = true
 			}
 		}
-		if resaved && listed("F28-C13-root-resaved-by-backpointer") && strings.Contains(obs.Err, "UNIQUE constraint failed") {
-			v.Known = []string{"F28-C13-root-resaved-by-backpointer"}
+		// (tree with the F28 repair, F27 unrepaired: the root is registered, and it is the whole-list guard that lets
+		// a list holding it next to a new record through -- the F27 pattern)
+		id := "F28-C13-root-resaved-by-backpointer"
+		if c13gFix.Root {
+			id = "F27-C13-mixed-association-batch"
+		}
+		if resaved && listed(id) && strings.Contains(obs.Err, "UNIQUE constraint failed") {
+			v.Known = []string{id}
 		} else {
 			v.Violation = "unexpected error: " + obs.Err
 		}
@@ -1042,7 +1090,13 @@ func c13gGen(rng *rand.Rand, maxN int) c13gCase {
 	// sharing: extra edges between arbitrary records
 	family := "tree"
 	extra := rng.Intn(4)
-	wild := rng.Intn(10) < 3 // allow back-pointers to the root(s), repeated elements
+	// allow back-pointers to the root(s), repeated elements: 30 % while these are listed defect patterns (exploration
+	// must continue beyond them), 60 % once the tree carries the repairs (then they are ordinary input space)
+	wildP := 3
+	if c13gFix.Root && (c13gFix.Filter || c13gFix.Distinct) {
+		wildP = 6
+	}
+	wild := rng.Intn(10) < wildP
 	for k := 0; k < extra; k++ {
 		for try := 0; try < 20; try++ {
 			u, v := rng.Intn(n), rng.Intn(n)
@@ -1273,6 +1327,9 @@ func c13gSuite(r *Result, rng *rand.Rand, tier string) {
 	logger.Default = logger.Discard
 	defer func() { logger.Default = old }()
 
+	c13gLoadFix(r)
+	r.H("graph-repairs-in-tree", fmt.Sprintf("F27-filter=%v F28-root=%v F29-distinct=%v", c13gFix.Filter, c13gFix.Root, c13gFix.Distinct))
+	c13gProbeWitnesses(r)
 	nrand, maxN := 500, 6
 	if tier == "thorough" {
 		nrand, maxN = 6000, 9
@@ -1357,9 +1414,11 @@ func c13gSuite(r *Result, rng *rand.Rand, tier string) {
 	} else {
 		for j := range tieIdx {
 			var m struct {
-				Log   json.RawMessage `json:"log"`
-				Ok    bool            `json:"ok"`
-				Clean bool            `json:"clean"`
+				Log      json.RawMessage `json:"log"`
+				Ok       bool            `json:"ok"`
+				Clean    bool            `json:"clean"`
+				OldLog   json.RawMessage `json:"oldlog"`
+				OldClean bool            `json:"oldclean"`
 			}
 			if json.Unmarshal(outs[j], &m) != nil {
 				r.Violate(Violation{Kind: "correspondence", Suite: "graphs", Input: tieCase[j], Observed: string(outs[j]), Note: "bad answer from the Lean driver"})
@@ -1369,13 +1428,37 @@ func c13gSuite(r *Result, rng *rand.Rand, tier string) {
 			r.H("graph-model-clean", fmt.Sprint(m.Clean))
 			if !m.Ok || canonRaw(m.Log) != tieLog[j] {
 				r.Violate(Violation{Kind: "correspondence", Suite: "graphs", Input: tieCase[j], Observed: tieLog[j], Expected: canonRaw(m.Log),
-					Note: "recorded hook/statement log vs Lean Gorm.VGraph.run (visit map + pipeline order)"})
+					Note: "recorded hook/statement log vs Lean Gorm.VGraph.run genVisitFix (visit map + pipeline order, with the repairs the regenerated facts find in this tree)"})
+			} else if m.OldClean {
+				// C13_visit_fix_conservative, observed: where the UNREPAIRED traversal shows none of the three patterns the
+				// tree under check (whatever repairs it carries) does exactly what the unrepaired code does
+				r.H("graph-unrepaired-model-clean", "real log = unrepaired model log")
+				if canonRaw(m.OldLog) != tieLog[j] {
+					r.Violate(Violation{Kind: "correspondence", Suite: "graphs", Input: tieCase[j], Observed: tieLog[j], Expected: canonRaw(m.OldLog),
+						Note: "the unrepaired traversal is clean on this graph, yet the recorded log differs from the unrepaired model's log (C13_visit_fix_conservative)"})
+				}
+			} else {
+				r.H("graph-unrepaired-model-clean", "unrepaired model shows a listed pattern")
 			}
 		}
 	}
-	// re-confirm the listed defects
-	for id, c := range c13gFindingWitnesses() {
+}
+
+// c13gProbeWitnesses re-confirms the listed defects on their minimal witnesses (first thing in the suite, so that a
+// witness that fails although its entry is no longer listed is the FIRST violation reported).  A witness whose entry
+// is no longer listed (repaired) is an ordinary case: the oracle demands the documented behaviour of it (exactly once
+// per record, one row per record, join rows).
+func c13gProbeWitnesses(r *Result) {
+	wit := c13gFindingWitnesses()
+	var wids []string
+	for id := range wit {
+		wids = append(wids, id)
+	}
+	sort.Strings(wids)
+	for _, id := range wids {
+		c := wit[id]
 		obs, _ := c13gRun(c)
+		r.Case("graphs", canon(c), true)
 		v := c13gOracle(c, obs)
 		found := false
 		for _, k := range v.Known {
@@ -1391,6 +1474,8 @@ func c13gSuite(r *Result, rng *rand.Rand, tier string) {
 		case listed(id):
 			r.Note("listed finding %s did not reproduce on its witness (repaired?)", id)
 			r.H("graph-known-stale", id)
+		default:
+			r.H("graph-former-witness-passes", id)
 		}
 	}
 }
@@ -1404,6 +1489,7 @@ func init() {
 		old := logger.Default
 		logger.Default = logger.Discard
 		defer func() { logger.Default = old }()
+		c13gLoadFix(nil)
 		obs, valid := c13gRun(c)
 		if !valid {
 			return
